@@ -126,13 +126,34 @@ Fixpoint fix1 (e : expr) : expr :=
   | Binary x p op y => Binary (fix1 x) p op (fix1 y)
   end.
 
+(* optional concrete syntax the Go tree does not record: a trailing comma before a
+   closing bracket, the second ':' of a slice written without a step *)
+Fixpoint strip_opt (l : list tok) : list tok :=
+  match l with
+  | [] => []
+  | t :: r =>
+    let r' := strip_opt r in
+    match t, r' with
+    | COMMA, (RPAREN :: _ | RBRACK :: _ | RBRACE :: _) => r'
+    | COLON, RBRACK :: _ => r'
+    | _, _ => t :: r'
+    end
+  end.
+
+(* the accepted token list is the rendering of the tree g (modulo the optional syntax) *)
+Definition render_ok (ts : list ptok) (g : expr) : bool :=
+  let body := strip_opt (map fst (tokens (fix1 g)) ++ [EOF]) in
+  let real := map fst ts in
+  toks_eqb (strip_opt real) body ||
+  toks_eqb (strip_opt real) (strip_opt (map fst (tokens (fix1 g)) ++ [NEWLINE; EOF])).
+
 Definition spec_ok (c : case) : bool :=
   match c with
   | CExpr ts want => wf_expr want && ends_ok ts (map fst (tokens want))
   | CInt src obs want => optZ_eqb obs (spec_int src) && optZ_eqb want (spec_int src)
   (* a text the real parser accepts must have been given a well-parenthesised tree
      (otherwise the tree is not one whose rendering is that text) *)
-  | CNearE _ (Some g) => wf_expr (fix1 g)
+  | CNearE ts (Some g) => wf_expr (fix1 g) && render_ok ts g
   | _ => true
   end.
 
